@@ -44,6 +44,8 @@ type iModel struct {
 	acls    []*iACL
 	entries []*iEntry
 	intfs   []*iIntf
+	// an 'exit' at configuration level has left configuration mode
+	leftConfig bool
 	// mode
 	mAcl   *iACL
 	mEntry *iEntry
@@ -118,9 +120,14 @@ func (m *iModel) exec(c string) {
 	if len(w) == 0 {
 		return
 	}
+	if m.leftConfig {
+		m.reject("command sent after configuration mode was left by a stray exit", c)
+		return
+	}
 	if c == "exit" {
 		if m.mAcl == nil && m.mEntry == nil && m.mIntf == nil {
 			m.reject("exit outside of a configuration sub-mode", c)
+			m.leftConfig = true
 		}
 		m.leave()
 		return
